@@ -208,8 +208,18 @@ def main() -> None:
         pid = p["id"]
         mod = load_rules(pid)
         if pid in CLAIMS and mod is not None:
-            c = CLAIMS[pid]
+            c = dict(CLAIMS[pid])
             served.append(pid)
+            # the rule list is taken from the rule module itself, so the claim text cannot drift from the code
+            import re as _re
+            ids = []
+            src = open(os.path.join(VERIF, "sa", "rules", pid.lower() + ".py")).read()
+            for m_ in _re.finditer(r'ctx\.rule\("(R[0-9.a-z-]+)"|borrow\(ctx, \w+, "R[0-9.]+", "(R[0-9.a-z]+)"|memo_rule\(ctx, "(R[0-9.]+)"|rule_id="(R[0-9.]+)"', src):
+                rid = next(g for g in m_.groups() if g)
+                if rid.startswith("R" + str(int(pid[1:])) + ".") and rid not in ids:
+                    ids.append(rid)
+            c["text"] = c["text"] + f" Rules run by this check on every invocation (DESIGN.md Appendix B gives each one's statement): {', '.join(ids)}."
+            c["note"] = c["note"] + " Rules are decided on normal forms (temporaries and simple helpers inlined, path normal form, canonical branch facts - DESIGN.md section 15) so behaviour-preserving refactorings do not raise alarms; a code shape outside what a rule can interpret yields ANALYSIS-ERROR (exit 2), never a VIOLATION."
             checks.append({
                 "property_id": pid,
                 "quick_cmd": f"/venv/bin/python -m sa.check {pid} --tier quick",
@@ -241,7 +251,8 @@ def main() -> None:
             "path": "/verif/sa",
             "serves_properties": served,
             "kind_free_text": "repository-specific static analyser, pure stdlib: ast index, statement CFG with exceptional edges and per-continuation finally copies, "
-                              "reaching definitions, call graph, lock regions, small abstract domains (intervals, bit truth tables, weak orderings), literal-table agreement",
+                              "reaching definitions, call graph, lock regions, small abstract domains (intervals, bit truth tables, weak orderings), literal-table agreement, "
+                              "path normal form of functions (canonical branch facts, forked conditional expressions, path-local values) with scenario selection, inlining of temporaries and simple helpers",
         }],
         "checks": checks,
         "notes": "Static-analysis family only: every verdict is computed from /repo/rich/*.py as on disk at the start of the check. Exit 0 ok / 1 VIOLATION / 2 ANALYSIS-ERROR. See DESIGN.md.",
